@@ -358,7 +358,7 @@ func lastField(path string) string {
 
 func c08Reprepare(p *Prog, r *Report) {
 	const rule = "C08.reprepare"
-	r.Rule(rule, "the outcome of a re-PREPARE re-executes the original request: an ERROR moves it to the next host, anything else retries the same host; a lost connection is forwarded as such")
+	r.Rule(rule, "the outcome of a re-PREPARE re-executes the original request: an ERROR moves it to the next host, anything else retries the same host; a connection lost while re-preparing moves it to the next host too (the request was answered UNPREPARED: it has not been executed, so this is safe for non-idempotent statements as well, and reporting the loss to the request would fail them)")
 	prep := p.Named("proxycore", "prepareRequest")
 	fn := p.methodOf(prep, "OnResult")
 	opF := p.Field("frame", "Header", "OpCode")
@@ -394,6 +394,35 @@ func c08Reprepare(p *Prog, r *Report) {
 		}
 		r.check(ok, rule, "prepareRequest.OnResult["+op+"]", p.Pos(fn.Pos()), "Execute(next="+want+")",
 			fmt.Sprintf("re-executes with next=%v, expected next=%s (a failed re-prepare must move on, a successful one must stay)", got, want))
+	}
+	// connection loss while the re-prepare is in flight
+	if oc := p.methodOf(prep, "OnClose"); oc != nil {
+		s := newSim(p)
+		var got []string
+		other := 0
+		s.Model = func(sm *Sim, st *State, call ssa.CallInstruction, callee *ssa.Function) []*State {
+			cm := call.Common()
+			if cm.IsInvoke() && recvNamedIs(cm.Method, "proxycore", "Request") {
+				if f, _ := loadedField(cm.Value); f == origF && cm.Method.Name() == "Execute" {
+					got = append(got, sm.eval(st, cm.Args[0]).String())
+				} else {
+					other++
+				}
+				return []*State{st}
+			}
+			return nil
+		}
+		s.Run(oc, newState())
+		ok := len(got) > 0 && other == 0
+		for _, g := range got {
+			if g != "true" {
+				ok = false
+			}
+		}
+		r.check(ok, rule, "prepareRequest.OnClose", p.Pos(oc.Pos()), "Execute(next=true)",
+			fmt.Sprintf("a connection lost during the re-prepare does not move the original request to the next host (Execute calls %v, %d other callbacks): reported as a connection loss, a non-idempotent statement that was never executed is failed", got, other))
+	} else {
+		r.bad(rule, "prepareRequest.OnClose", "", "the re-prepare wrapper has no OnClose")
 	}
 	// IsPrepareRequest of the wrapper is true (its PREPARED result refreshes the cache entry)
 	ipr := p.methodOf(prep, "IsPrepareRequest")
